@@ -106,6 +106,11 @@ func DrawEnv(t *rapid.T, opt EnvOpt) *Env {
 				at := rapid.IntRange(0, len(ks.Fields)-1).Draw(t, "extkeyblankat")
 				ks.Fields = append(ks.Fields[:at], append([]Field{bf}, ks.Fields[at:]...)...)
 			}
+			// unexported field names of imported structs may start with a letter outside ASCII
+			privName := "f%d"
+			if !opt.NoUnicode && rapid.IntRange(0, 3).Draw(t, "extunicode") == 0 {
+				privName = "\u00e9f%d"
+			}
 			ns := rapid.IntRange(1, 2).Draw(t, "extstructs")
 			var local []*Decl
 			for j := 0; j < ns; j++ {
@@ -114,7 +119,7 @@ func DrawEnv(t *rapid.T, opt EnvOpt) *Env {
 				for k := 0; k < nf; k++ {
 					name := fmt.Sprintf("F%d", k)
 					if !opt.NoPrivateExt && !opt.ExportedOnly && rapid.IntRange(0, 2).Draw(t, "extpriv") != 0 {
-						name = fmt.Sprintf("f%d", k)
+						name = fmt.Sprintf(privName, k)
 					}
 					d.Fields = append(d.Fields, Field{Name: name, Type: e.drawExtFieldType(t, xp, nb, ks, local, d, 2)})
 				}
